@@ -53,7 +53,7 @@ for sid in sys.argv[1:]:
     os.makedirs(dst, exist_ok=True)
     shutil.copy(f"{src}/patch.diff", f"{dst}/patch.diff")
     shutil.copy(f"{src}/demo.py", f"{dst}/demo.py")
-    viol, und, rules = detect(f"{dst}/patch.diff")
+    viol, und, rules = ([], [], {}) if os.environ.get("QV_NO_DETECT") else detect(f"{dst}/patch.diff")
     meta = {
         "property": m0.get("property", sid[:3]),
         "breaks": m0.get("summary") or m0.get("breaks") or m0.get("description", ""),
